@@ -491,7 +491,7 @@ def run(res, ctx):
     })
     res.assumptions += [
         "the model takes the delta lists from the implementation (run_acb_app_to_delta_models on the same input); the bookkeeping that produces them is the subject of C01-C04",
-        "figures are compared as numbers in the full-value rendering; the rounding to cents of the default rendering is display-only (C06)",
+        "figures are compared as numbers in the full-value rendering; the default rendering is checked cell by cell to be the full value rounded to cents (half away from zero)",
         "totals are compared with the exact sum within 1e-9 (the code adds with rust_decimal rounding); per-security figures are compared exactly",
     ]
 
